@@ -63,7 +63,8 @@ def main():
                     v = [l for l in r.stdout.splitlines() if l.startswith("violation:")][:1]
                     caught = (prop, v[0][:140] if v else ""); break
                 if r.returncode == 2:
-                    caught = (prop, "EXIT 2: " + (r.stdout.strip().splitlines() or [""])[-1][:140]); break
+                    # harness trouble is not a detection: note it and try the next property
+                    print(f'  EXIT2 {m["file"]}:{m["line"]} {m["old"]}->{m["new"]} [{prop}] ' + (r.stdout.strip().splitlines() or [""])[-1][:160], flush=True)
             tag = f'{m["file"]}:{m["line"]} {m["old"]}->{m["new"]} | {m["text"][:90]}'
             if caught:
                 print(f"CAUGHT {tag} | by {caught[0]} {caught[1]} ({time.time()-t0:.0f}s)", flush=True)
